@@ -26,7 +26,7 @@ opkinds! {
     VToTup = 4, "VToTup";             // v.into_tuple()
     ArrToTup = 5, "ArrToTup";         // harness only
     TupToArr = 6, "TupToArr";         // harness only
-    FromIterStub = 7, "FromIterStub"; // Arr -> V::from_iter(stub source); a = source mode, b = j | hint<<8, f = default-panic k
+    FromIterStub = 7, "FromIterStub"; // Arr -> V::from_iter(stub source); a = source mode (0 exact, 1 early EOF, 2 surplus, 3 panics, 4 not fused: one None then more), b = j | hint<<8, f = default-panic k
     VDefault = 8, "VDefault";         // * -> V::default(); f = default-panic k
     VIntoIter = 9, "VIntoIter";       // v.into_iter()
     // ---- on a vector value ----
